@@ -462,6 +462,22 @@ pub fn c18_pins() -> Vec<Pin> {
             expect: &[("r", 1)],
         },
         Pin {
+            name: "store_with_computed_subscript",
+            src: "unsigned char arr[8]; unsigned char v, i, r; void main() { v = 77; i = 2; load(v); store(arr[i + 1]); r = arr[3]; }",
+            init: &[],
+            x: 0,
+            y: 0,
+            expect: &[("r", 77)],
+        },
+        Pin {
+            name: "strobe_with_subscript",
+            src: "unsigned char pad[15]; unsigned char arr[4]; unsigned char * const REG = 0x90; unsigned char v, r; void main() { v = 5; load(v); strobe(REG[2]); r = arr[2]; }",
+            init: &[],
+            x: 0,
+            y: 0,
+            expect: &[("r", 5)],
+        },
+        Pin {
             name: "load_then_flag_test",
             src: "unsigned char * const P = 0x2a;\nunsigned char a, l, r; void main() { l = a; load(*P); if (l == 0) r = 1; else r = 2; }",
             init: &[("a", 0)],
